@@ -19,7 +19,7 @@ from .astutil import call_name, unparse, bind_call
 from .expr import Translator, equal, as_bool
 from .model import AnalysisError, Func, Program
 
-MAX_LEAVES = 256
+MAX_LEAVES = 1024
 
 
 @dataclass
@@ -31,6 +31,7 @@ class Leaf:
     value: Optional[sp.Expr] = None                      # return value
     snaps: Dict[int, Tuple[Dict[str, sp.Expr], int]] = field(default_factory=dict)   # id(loop stmt) -> (env, #conds) on entry
     store_at: Dict[int, Tuple[sp.Expr, sp.Expr]] = field(default_factory=dict)       # id(store stmt) -> (base value, index value)
+    cond_nodes: List[ast.AST] = field(default_factory=list)                           # the `if` statement behind each entry of conds
 
     def cond(self) -> sp.Expr:
         cs = []
@@ -45,7 +46,8 @@ class Leaf:
 class PathTable:
     def __init__(self, prog: Optional[Program] = None, module=None, accumulators: Sequence[str] = (),
                  env: Optional[Dict[str, sp.Expr]] = None, call_hook: Optional[Callable] = None, inline_depth: int = 2,
-                 positive: Sequence[str] = (), structured: bool = False, scope: Optional[Func] = None):
+                 positive: Sequence[str] = (), structured: bool = False, scope: Optional[Func] = None,
+                 skip_if: Optional[Callable[[ast.If], bool]] = None, unroll: bool = False, opaque: Sequence[str] = ()):
         self.prog = prog
         self.module = module
         self.acc = set(accumulators)
@@ -55,6 +57,9 @@ class PathTable:
         self.positive = set(positive)
         self.structured = structured
         self.scope = scope              # enclosing function: its nested closures may be inlined
+        self.skip_if = skip_if          # `if` statements to ignore altogether (e.g. verbosity blocks, checked separately)
+        self.unroll = unroll            # unroll loops over short literal / module-constant sequences
+        self.opaque = set(opaque)       # functions never inlined
 
     # ------------------------------------------------------------------ translation with inlining
     def _T(self, env: Dict[str, sp.Expr], depth: int = 0) -> Translator:
@@ -62,6 +67,16 @@ class PathTable:
         T._depth = depth
         T.attr_of_bound = True
         T.structured = self.structured
+        if self.unroll and self.module is not None:
+            mod = self.module
+
+            def const_hook(name, mod=mod):
+                # module-level constants that are literal numbers / tuples of literals
+                sym = mod.symbols.get(name)
+                if sym and sym[0] == "const" and _is_literal(sym[1]):
+                    return Translator().tr(sym[1])
+                return None
+            T.symbol_hook = const_hook
 
         def hook(call, TT):
             if self.user_hook is not None:
@@ -77,7 +92,8 @@ class PathTable:
                 # a local bound to a function value (e.g. pre_fxn, post_fxn = factory(...)): name it by its value
                 return sp.Function("call")(TT.env[call.func.id], *[TT.tr(a) for a in call.args],
                                            *[sp.Function("kw_" + k.arg)(TT.tr(k.value)) for k in call.keywords if k.arg])
-            if self.prog is not None and isinstance(call.func, ast.Name) and call.func.id not in TT.env and depth < self.inline_depth:
+            if self.prog is not None and isinstance(call.func, ast.Name) and call.func.id not in TT.env and depth < self.inline_depth \
+                    and call.func.id not in self.opaque:
                 r = self.prog.resolve_name(self.module, call.func.id) if self.module is not None else None
                 if r and r[0] == "func":
                     return self._inline(r[1], call, TT, depth)
@@ -103,7 +119,7 @@ class PathTable:
             else:
                 return None
         body = [st for st in g.node.body if not (isinstance(st, ast.Expr) and isinstance(st.value, ast.Constant))]
-        sub = PathTable(self.prog, g.module, (), env, self.user_hook, self.inline_depth, structured=self.structured)
+        sub = PathTable(self.prog, g.module, (), env, self.user_hook, self.inline_depth, structured=self.structured, unroll=self.unroll)
         try:
             ls = sub._walk(body, Leaf([], dict(env), []), depth + 1)
         except AnalysisError:
@@ -135,7 +151,7 @@ class PathTable:
         return cur
 
     def _copy(self, l: Leaf) -> Leaf:
-        return Leaf(list(l.conds), dict(l.env), list(l.events), l.exit, l.value, dict(l.snaps), dict(l.store_at))
+        return Leaf(list(l.conds), dict(l.env), list(l.events), l.exit, l.value, dict(l.snaps), dict(l.store_at), list(l.cond_nodes))
 
     def _stmt(self, st: ast.stmt, l: Leaf, depth: int) -> List[Leaf]:
         self.cur_leaf = l           # hooks may consult the path so far (e.g. to tag calls with a state epoch)
@@ -175,11 +191,19 @@ class PathTable:
             else:
                 l.events.append(("store", name, sp.Function("aug_" + type(st.op).__name__)(rhs), st))
             return [l]
+        if isinstance(st, ast.If) and self.skip_if is not None and self.skip_if(st):
+            return [l]
         if isinstance(st, ast.If):
             c = as_bool(T.tr(st.test))
+            if c == sp.true:
+                return self._walk(st.body, l, depth)
+            if c == sp.false:
+                return self._walk(st.orelse, l, depth)
             a, b = self._copy(l), self._copy(l)
             a.conds.append((c, True))
             b.conds.append((c, False))
+            a.cond_nodes.append(st)
+            b.cond_nodes.append(st)
             return self._walk(st.body, a, depth) + self._walk(st.orelse, b, depth)
         if isinstance(st, ast.Continue):
             l.exit = "continue"
@@ -194,6 +218,14 @@ class PathTable:
         if isinstance(st, ast.Raise):
             l.exit = "raise"
             return [l]
+        if isinstance(st, ast.Expr) and isinstance(st.value, ast.Call) and isinstance(st.value.func, ast.Attribute) \
+                and st.value.func.attr == "append" and isinstance(st.value.func.value, ast.Name) and len(st.value.args) == 1 \
+                and isinstance(l.env.get(st.value.func.value.id), sp.Tuple):
+            # a local list built by appends: model its content
+            v = T.tr(st.value.args[0])
+            l.env[st.value.func.value.id] = sp.Tuple(*l.env[st.value.func.value.id], v)
+            l.events.append(("call", unparse(st.value.func), sp.Function("append")(sp.Symbol(st.value.func.value.id, real=True), v), st))
+            return [l]
         if isinstance(st, ast.Expr):
             if isinstance(st.value, ast.Call):
                 try:
@@ -201,6 +233,10 @@ class PathTable:
                 except AnalysisError:
                     l.events.append(("call", unparse(st.value.func), sp.Symbol("<call>"), st))
             return [l]
+        if isinstance(st, ast.For) and self.unroll:
+            rows = self._rows(st, T)
+            if rows is not None:
+                return self._unrolled(st, rows, l, depth)
         if isinstance(st, (ast.For, ast.While)):
             l.events.append(("loop", unparse(st.target) if isinstance(st, ast.For) else "while", sp.Symbol("<loop>"), st))
             l.snaps[id(st)] = (dict(l.env), len(l.conds))
@@ -215,6 +251,85 @@ class PathTable:
 
 
 MUTATORS = {"append", "extend", "insert", "update", "pop", "remove", "clear", "sort", "reverse", "add", "setdefault", "fill", "resize"}
+
+
+def _is_literal(e: ast.AST) -> bool:
+    if isinstance(e, ast.Constant):
+        return isinstance(e.value, (int, float)) and not isinstance(e.value, bool)
+    if isinstance(e, (ast.Tuple, ast.List)):
+        return all(_is_literal(x) for x in e.elts)
+    if isinstance(e, ast.UnaryOp) and isinstance(e.op, ast.USub):
+        return _is_literal(e.operand)
+    return False
+
+
+def _pt_rows(self, st: ast.For, T: Translator):
+    """Rows of a loop over a short literal / module-constant sequence (or a zip with one), else None."""
+    def literal(e):
+        if isinstance(e, (ast.Tuple, ast.List)):
+            return list(e.elts)
+        if isinstance(e, ast.Name) and e.id not in T.env and self.module is not None:
+            sym = self.module.symbols.get(e.id)
+            if sym and sym[0] == "const" and isinstance(sym[1], (ast.Tuple, ast.List)):
+                return list(sym[1].elts)
+        return None
+    it = st.iter
+    lit = literal(it)
+    if lit is not None and len(lit) <= 8:
+        return [T.tr(e) for e in lit]
+    if isinstance(it, ast.Call) and call_name(it) == "zip" and it.args and not it.keywords:
+        cols = [literal(a) for a in it.args]
+        ns = [len(c) for c in cols if c is not None]
+        if ns and min(ns) <= 8:
+            n = min(ns)
+            rows = []
+            for i in range(n):
+                row = []
+                for a, c in zip(it.args, cols):
+                    row.append(T.tr(c[i]) if c is not None else sp.Function("getitem")(T.tr(a), sp.Integer(i)))
+                rows.append(sp.Tuple(*row))
+            return rows
+    return None
+
+
+def _pt_bind(target: ast.AST, value, env):
+    if isinstance(target, ast.Name):
+        env[target.id] = value
+    elif isinstance(target, (ast.Tuple, ast.List)):
+        for i, e in enumerate(target.elts):
+            v = value[i] if isinstance(value, sp.Tuple) and i < len(value) else sp.Function("getitem")(value, sp.Integer(i))
+            _pt_bind(e, v, env)
+
+
+def _pt_unrolled(self, st: ast.For, rows, leaf: Leaf, depth: int) -> List[Leaf]:
+    live = [leaf]
+    done: List[Leaf] = []
+    for row in rows:
+        nxt: List[Leaf] = []
+        for l in live:
+            _pt_bind(st.target, row, l.env)
+            for o in self._walk(st.body, l, depth):
+                if o.exit == "break":
+                    o.exit = "fall"
+                    done.append(o)
+                elif o.exit == "continue":
+                    o.exit = "fall"
+                    nxt.append(o)
+                elif o.exit == "fall":
+                    nxt.append(o)
+                else:
+                    done.append(o)      # return / raise leave the loop for good
+        live = nxt
+        if len(live) + len(done) > MAX_LEAVES:
+            raise AnalysisError("decision table too large")
+    out = list(done)
+    for l in live:
+        out += self._walk(st.orelse, l, depth) if st.orelse else [l]
+    return out
+
+
+PathTable._rows = _pt_rows
+PathTable._unrolled = _pt_unrolled
 
 
 def assigned_names(node: ast.AST) -> Set[str]:
@@ -281,6 +396,31 @@ def negate(r):
     if isinstance(r, sp.Ne):
         return sp.Eq(r.lhs, r.rhs, evaluate=False)
     return sp.Not(r)
+
+
+def literals_of(leaf: Leaf, nodes) -> List[sp.Expr]:
+    """Literals of the path restricted to the conditions that come from the given `if` statements."""
+    ids = {id(n) for n in nodes}
+    sub = Leaf([c for c, n in zip(leaf.conds, leaf.cond_nodes) if id(n) in ids], leaf.env, [])
+    return literals(sub)
+
+
+def expand_piecewise(lits: List[sp.Expr]) -> List[List[sp.Expr]]:
+    """Split literals that contain a Piecewise term into one case per piece."""
+    for i, x in enumerate(lits):
+        pws = list(x.atoms(sp.Piecewise)) if hasattr(x, "atoms") else []
+        if pws:
+            pw = pws[0]
+            out = []
+            neg: List[sp.Expr] = []
+            for v, c in pw.args:
+                extra = [] if c == sp.true else ([canon_rel(a) for a in c.args] if isinstance(c, sp.And) else [canon_rel(c)])
+                y = x.xreplace({pw: v})
+                out += expand_piecewise(lits[:i] + neg + extra + [canon_rel(y) if isinstance(y, (sp.Lt, sp.Le, sp.Gt, sp.Ge)) else y] + lits[i + 1:])
+                if c != sp.true:
+                    neg = neg + [negate(c)]
+            return out
+    return [lits]
 
 
 def literals(leaf: Leaf) -> List[sp.Expr]:
